@@ -1913,7 +1913,8 @@ static PyObject * matrix_imul(PyObject *self,PyObject *other)
 static PyObject *
 matrix_div_generic(PyObject *self, PyObject *other, int inplace)
 {
-  if (!((Matrix_Check(other) && MAT_LGT(other)==1) || PY_NUMBER(other))) {
+  if (!(Matrix_Check(self) || PY_NUMBER(self)) ||
+      !((Matrix_Check(other) && MAT_LGT(other)==1) || PY_NUMBER(other))) {
     Py_INCREF(Py_NotImplemented);
     return Py_NotImplemented;
   }
@@ -1961,7 +1962,8 @@ static PyObject * matrix_idiv(PyObject *self,PyObject *other)
 static PyObject *
 matrix_rem_generic(PyObject *self, PyObject *other, int inplace)
 {
-  if (!((Matrix_Check(other) && MAT_LGT(other)==1) || PY_NUMBER(other))) {
+  if (!(Matrix_Check(self) || PY_NUMBER(self)) ||
+      !((Matrix_Check(other) && MAT_LGT(other)==1) || PY_NUMBER(other))) {
     Py_INCREF(Py_NotImplemented);
     return Py_NotImplemented;
   }
